@@ -7,6 +7,14 @@ CLAIMED = {
    text="Deductive: lock-balance ghost state (drive held / per-mutex held) is proved free on every return path of the functions under contract, for every outcome of every callee (each error return of a callee is a CFG path), plus explicit-panic/type-assertion safety. Unbounded in inputs and fault points; no scheduling.",
    note="Assumed: sync.Mutex semantics, the abstract spec of the four BackendConfig drive funcs, callbacks do not touch locks; go/ssa as semantics; SMT solvers. Liveness of io.Pipe hand-off is not decided.",
    design="4.10"),
+ "C04": dict(
+   text="Deductive: the position arithmetic of the regular-drive branches of recovery.Index and recovery.Query is proved for every record size >= 1 and every byte offset by a loop invariant over a ghost model of the drive offset and of archive/tar's reader (next header = drive offset + unread payload + padding): the (record, block) handed to the indexer/callback with each header is that header's start, 0 <= block < record size; Fetch seeks to exactly 512*(recordSize*record+block); Restore passes the row's own position. Non-linear integer arithmetic with a real-valued ceiling, unbounded.",
+   note="Assumed: tar reader/Seek/io.Copy ghost specs written from reading archive/tar (specs/30_tar_positions.spec); float64 ceiling exact below 2^53; machine integers mathematical. Not decided here: tape-drive (mt ioctl) branches; the row-position rules of indexHeader and the last-indexed invariant (index-view obligations, not built yet); 'fetching returns current content' rests on C03/C05.",
+   design="4.4"),
+ "C08": dict(
+   text="Deductive: VerifyString accepts only if the library check succeeded on exactly (recipient, src) (minisign) resp. a PGP signature check succeeded on a hash that absorbed exactly src; VerifyHeader requires both records, verifies the embedded header, replaces every field of the outer header by the decoded embedded one and leaves no PAX record that is not in the signed header (encoding/json's merge-into-existing-map semantics is modelled); every header that reaches indexHeader / the Query result / Fetch's destination passed the verifier callback with no store in between; closures passed as verifier/decryptor are checked to conform to named specs, and Index requires a real verifier, or the substitution callback together with the no-op verifier (write paths).",
+   note="Assumed: minisign.Verify / PublicKey.VerifySignature establish the uninterpreted predicates signedBy / pgpSigOK exactly when they report success; base64/json decode are functions of their input; a tar.Header is written by a callee without precise frame only if handed to it directly. Content verification (signature.Verify closure, Fetch content gate) and key identity for PGP are not yet under contract.",
+   design="4.8"),
  "C15": dict(
    text="Deductive: ghost counters for 'drive opened for writing' and 'index-store mutator called' are proved unchanged on every path of every STFS/File method when the instance is read-only (resp. the handle lacks the write flag); mutating methods are proved to return ErrPermission; the flag word handed to NewFile is proved free of write/append/truncate for every flag value (bit operations exact). Ghost frames force every function between the API and the seams to declare its writes.",
    note="Assumed: the drive is only written through BackendConfig.GetWriter and the index only through the five MetadataPersister mutators (specs in /verif/specs); loggers and write caches do not touch stfs state; configuration fields immutable after construction (checked mechanically). 'Reads return what a writable instance returns' is not decided.",
@@ -15,9 +23,9 @@ CLAIMED = {
 
 NOT_YET = {
  "C01": "not yet built (planned, DESIGN 4.1)", "C02": "not yet built (planned, DESIGN 4.2)",
- "C03": "not yet built (planned, DESIGN 4.3)", "C04": "not yet built (planned, DESIGN 4.4)",
+ "C03": "not yet built (planned, DESIGN 4.3)",
  "C05": "not yet built (planned, DESIGN 4.5)", "C06": "not yet built (planned, DESIGN 4.6)",
- "C07": "not yet built (planned, DESIGN 4.7)", "C08": "not yet built (planned, DESIGN 4.8)",
+ "C07": "not yet built (planned, DESIGN 4.7)", 
  "C09": "not yet built (planned, DESIGN 4.9)", "C11": "not yet built (planned, DESIGN 4.11)",
  "C12": "not yet built (planned, DESIGN 4.12)", "C13": "not yet built (planned, DESIGN 4.13)",
  "C14": "not yet built (planned, DESIGN 4.14)",
